@@ -342,6 +342,31 @@ impl<'p> Interp<'p> {
 				}
 				v
 			};
+			if self.f32_mode {
+				let xf = x as f32;
+				let af: Vec<f32> = a.iter().map(|v| *v as f32).collect();
+				let r32 = match name {
+					"sqrt" => Some(xf.sqrt()),
+					"recip" => Some(xf.recip()),
+					"mul_add" => Some(xf.mul_add(af[0], af[1])),
+					"powi" => Some(xf.powi(a[0] as i32)),
+					"powf" => Some(xf.powf(af[0])),
+					"exp" => Some(xf.exp()),
+					"ln" => Some(xf.ln()),
+					"tanh" => Some(xf.tanh()),
+					"atanh" => Some(xf.atanh()),
+					"sin" => Some(xf.sin()),
+					"cos" => Some(xf.cos()),
+					"tan" => Some(xf.tan()),
+					_ => None,
+				};
+				if let Some(r) = r32 {
+					return Ok(V::F(Fl::C(r as f64)));
+				}
+				if name == "to_bits" {
+					return Ok(V::Int(xf.to_bits() as i128, ITy::U32));
+				}
+			}
 			let r = match name {
 				"abs" => x.abs(),
 				"sqrt" => x.sqrt(),
